@@ -70,6 +70,14 @@ def run_impl(c):
         imp = ShapleyImportance(method=c["method"], utility=util, pipeline=pipeline, **kw)
         with warnings.catch_warnings():
             warnings.simplefilter("ignore")
+            if pipeline is not None:
+                # a HISTORY on the one object: fitted first on other data of the same shape and container type (the rows in reverse
+                # order) and scored, then fitted on the real data -- the pipeline must be applied to the data of the LAST fit
+                rev = (lambda A: A.iloc[::-1] if hasattr(A, "iloc") else A[::-1])
+                imp.fit(rev(Xa), rev(ya))
+                imp.score(Xb, yb)
+                if c["method"] == "montecarlo":      # the first call consumed permutations: restart the instance's stream
+                    imp.randomstate = np.random.RandomState(kw["seed"])
             imp.fit(Xa, ya)
             return np.asarray(imp.score(Xb, yb), dtype=float)
 
